@@ -231,3 +231,63 @@ Proof. unfold big_edge_external, end_junction. rewrite negb_orb, negb_involutive
     exfalso. assert (existsb (fun v => ncells v <? 2) e = true); [|congruence]. apply existsb_exists. exists v. split; [exact Hv|apply Z.ltb_lt; exact Hlt].
   - intros [H1 H2]. split; [|lia]. apply not_true_is_false. intros H. apply existsb_exists in H. destruct H as [v [Hv Hlt]].
     apply Z.ltb_lt in Hlt. specialize (H1 v Hv). lia. Qed.
+
+(* ================================================================== renaming (C07) *)
+Section Rename.
+  Variables (f : Z -> Z) (junc junc' : Z -> bool).
+  Hypothesis Hj : forall x, junc' (f x) = junc x.
+
+  Lemma get_partition_rename l : get_partition junc' (map f l) = map (map f) (get_partition junc l).
+  Proof. induction l as [|x t IH]; [reflexivity|]. simpl. rewrite Hj, IH.
+    destruct (get_partition junc t) as [|h r]; simpl; destruct (junc x); reflexivity. Qed.
+
+  Lemma headZ_map p : p <> [] -> headZ (map f p) = f (headZ p).
+  Proof. destruct p; [congruence|reflexivity]. Qed.
+
+  Lemma close_pieces_rename q : Forall (fun p => p <> []) q -> close_pieces (map (map f) q) = map (map f) (close_pieces q).
+  Proof. intros Hq. unfold close_pieces.
+    assert (E : map headZ (map (map f) q) = map f (map headZ q)).
+    { rewrite !map_map. apply map_ext_in. intros p Hp. apply headZ_map. rewrite Forall_forall in Hq. apply Hq, Hp. }
+    rewrite E. clear E Hq. set (hs := map headZ q).
+    assert (R : rot1 (map f hs) = map f (rot1 hs)) by (destruct hs; simpl; [reflexivity|rewrite map_app; reflexivity]).
+    rewrite R. generalize (rot1 hs). clear. induction q as [|p q IH]; intros [|h hs]; simpl; try reflexivity.
+    rewrite map_app. simpl. f_equal. apply IH. Qed.
+
+  Lemma piece_ok_nonempty jn q : forallb (piece_ok jn) q = true -> Forall (fun p => p <> []) q.
+  Proof. intros H. apply Forall_forall. intros p Hp. rewrite forallb_forall in H. specialize (H p Hp). destruct p; [discriminate|discriminate]. Qed.
+
+  Lemma map_tl' {A B} (g : A -> B) l : map g (tl l) = tl (map g l).
+  Proof. destruct l; reflexivity. Qed.
+
+  Lemma cell_interfaces_rename ids : cell_interfaces junc' (map f ids) = map (map f) (cell_interfaces junc ids).
+  Proof. unfold cell_interfaces. destruct ids as [|x t]; [reflexivity|].
+    change (map f (x :: t)) with (f x :: map f t) at 1. cbv beta iota. rewrite Hj.
+    destruct (junc x) eqn:Jx.
+    - rewrite get_partition_rename. rewrite <- map_tl'. apply close_pieces_rename.
+      apply (piece_ok_nonempty junc). apply partition_spec.
+    - rewrite get_partition_rename.
+      assert (E : concat (tl (map (map f) (get_partition junc (x :: t)))) ++ hd [] (map (map f) (get_partition junc (x :: t)))
+                  = map f (concat (tl (get_partition junc (x :: t))) ++ hd [] (get_partition junc (x :: t)))).
+      { destruct (get_partition junc (x :: t)) as [|h r]; [reflexivity|]. simpl. rewrite map_app, concat_map. reflexivity. }
+      rewrite E, get_partition_rename, <- map_tl'. apply close_pieces_rename. apply (piece_ok_nonempty junc). apply partition_spec. Qed.
+
+  Hypothesis Hinj : forall x y, f x = f y -> x = y.
+  Lemma listZ_eq_rename a b : listZ_eq (map f a) (map f b) = listZ_eq a b.
+  Proof. revert b; induction a as [|x s IH]; intros [|y t]; simpl; try reflexivity. rewrite IH.
+    destruct (Z.eqb_spec x y) as [->|Hne]; [rewrite Z.eqb_refl; reflexivity|].
+    destruct (Z.eqb_spec (f x) (f y)) as [E|_]; [apply Hinj in E; contradiction|reflexivity]. Qed.
+  Lemma mem_list_rename e l : mem_list (map f e) (map (map f) l) = mem_list e l.
+  Proof. unfold mem_list. induction l as [|x t IH]; [reflexivity|]. simpl. rewrite listZ_eq_rename, IH. reflexivity. Qed.
+  Lemma dedup_ifaces_rename l : dedup_ifaces (map (map f) l) = map (map f) (dedup_ifaces l).
+  Proof. unfold dedup_ifaces. change (@nil (list Z)) with (map (map f) []) at 1. generalize (@nil (list Z)).
+    induction l as [|e t IH]; intros acc; [reflexivity|]. simpl. rewrite <- IH. f_equal.
+    unfold dedup_step. rewrite <- map_rev, !mem_list_rename. destruct (mem_list (rev e) acc || mem_list e acc); [reflexivity|].
+    rewrite map_app. reflexivity. Qed.
+
+  (* renumbering vertices (injectively) and cells (arbitrarily) renames the interfaces and changes nothing else,
+     not even their order; mesh-edge ids do not occur in the decomposition at all *)
+  Theorem create_edges_new_rename (g : Z -> Z) cells :
+    create_edges_new junc' (map (fun c => (g (fst c), map f (snd c))) cells) = map (map f) (create_edges_new junc cells).
+  Proof. unfold create_edges_new. rewrite <- dedup_ifaces_rename. f_equal. rewrite map_map, concat_map, map_map.
+    f_equal. apply map_ext. intros c. simpl. apply cell_interfaces_rename. Qed.
+End Rename.
